@@ -38,7 +38,7 @@ def path_list(tier):
 
 
 def family(tier):
-    return (gen.docs_struct(3) if tier == "quick" else gen.docs_struct(4)) + gen.docs_type2()
+    return (gen.docs_struct(3) if tier == "quick" else gen.docs_struct(4)) + gen.docs_type2() + gen.docs_deep()
 
 
 _pl = {}
@@ -48,6 +48,11 @@ def _paths(tier):
     if tier not in _pl:
         _pl[tier] = path_list(tier)
     return _pl[tier]
+
+
+def prepare(tier):
+    _paths(tier)
+    family(tier)
 
 
 def units(tier):
